@@ -1,6 +1,9 @@
 use proc_macro2::{Ident, TokenStream};
 use quote::quote;
-use syn::{parse_quote, ItemTrait, TraitItem, TraitItemType, Type, WhereClause, WherePredicate};
+use syn::{
+    parse_quote, ItemTrait, PredicateType, TraitItem, TraitItemType, Type, WhereClause,
+    WherePredicate,
+};
 
 pub const ERROR_TYPE: &str = "Error";
 pub const EXEC_TYPE: &str = "ExecC";
@@ -118,38 +121,56 @@ pub trait EmitAssociated {
     fn emit_implementation(&self) -> Vec<TokenStream>;
 }
 
+/// Type predicates of the where clause with the ones bounding the same type merged.
+/// A type might be bound by several predicates while the associated type can be emitted only once.
+fn merged_type_predicates(clause: &WhereClause) -> Vec<PredicateType> {
+    let mut merged: Vec<PredicateType> = vec![];
+    for predicate in &clause.predicates {
+        let WherePredicate::Type(predicate) = predicate else {
+            continue;
+        };
+        match merged
+            .iter_mut()
+            .find(|merged| merged.bounded_ty == predicate.bounded_ty)
+        {
+            Some(merged) => {
+                merged.bounds.extend(predicate.bounds.iter().cloned());
+                if merged.lifetimes.is_none() {
+                    merged.lifetimes = predicate.lifetimes.clone();
+                }
+            }
+            None => merged.push(predicate.clone()),
+        }
+    }
+    merged
+}
+
 impl EmitAssociated for WhereClause {
     fn emit_declaration(&self) -> Vec<TokenStream> {
-        self.predicates
+        merged_type_predicates(self)
             .iter()
-            .filter_map(|predicate| match predicate {
-                WherePredicate::Type(predicate) => {
-                    let bounded_ty = &predicate.bounded_ty;
-                    let bounds = &predicate.bounds;
-                    let lifetimes = &predicate.lifetimes.as_ref().map(|lf| {
-                        let lf = &lf.lifetimes;
-                        quote! { < #lf > }
-                    });
-                    Some(quote! { type #bounded_ty #lifetimes: #bounds; })
-                }
-                _ => None,
+            .map(|predicate| {
+                let bounded_ty = &predicate.bounded_ty;
+                let bounds = &predicate.bounds;
+                let lifetimes = &predicate.lifetimes.as_ref().map(|lf| {
+                    let lf = &lf.lifetimes;
+                    quote! { < #lf > }
+                });
+                quote! { type #bounded_ty #lifetimes: #bounds; }
             })
             .collect()
     }
 
     fn emit_implementation(&self) -> Vec<TokenStream> {
-        self.predicates
+        merged_type_predicates(self)
             .iter()
-            .filter_map(|predicate| match predicate {
-                WherePredicate::Type(predicate) => {
-                    let bounded_ty = &predicate.bounded_ty;
-                    let lifetimes = &predicate.lifetimes.as_ref().map(|lf| {
-                        let lf = &lf.lifetimes;
-                        quote! { < #lf > }
-                    });
-                    Some(quote! { type #bounded_ty #lifetimes = #bounded_ty; })
-                }
-                _ => None,
+            .map(|predicate| {
+                let bounded_ty = &predicate.bounded_ty;
+                let lifetimes = &predicate.lifetimes.as_ref().map(|lf| {
+                    let lf = &lf.lifetimes;
+                    quote! { < #lf > }
+                });
+                quote! { type #bounded_ty #lifetimes = #bounded_ty; }
             })
             .collect()
     }
